@@ -145,7 +145,7 @@ func (vc *VC) goStmt(st *State, x *ssa.Go, guard string) {
 			if err != nil {
 				panic(execErr(fmt.Sprintf("requires of %s at go statement: %v", spec.Name, err)))
 			}
-			vc.oblige("go-pre", vc.srcLabel(x)+": "+spec.Name+"."+c.label(), vc.nopanicProps(), guard, s, "precondition of the spawned function "+spec.Name+": "+c.Text, x.Pos())
+			vc.oblige("go-pre", vc.srcLabel(x)+": "+spec.Name+"."+c.label(), unionProps(vc.nopanicProps(), c.Props), guard, s, "precondition of the spawned function "+spec.Name+": "+c.Text, x.Pos())
 		}
 		vc.usedSpecs[spec.Name] = true
 	} else {
@@ -305,4 +305,19 @@ func (vc *VC) rangeNext(st *State, x *ssa.Next, guard string) {
 	vc.assume(implies(not(okc), fmt.Sprintf("(forall ((q %s)) (! (=> (and (not (= %s 0)) (select %s q)) (select %s q)) :pattern ((select %s q))))", ks, m.S, has, vis, has)))
 	vc.set(st, name, sortName, sx("ite", okc, sx("store", vis, k, "true"), vis))
 	vc.tuples[x] = []Term{{S: okc, Sort: "Bool", T: types.Typ[types.Bool]}, {S: k, Sort: ks, T: mt.Key()}, {S: v, Sort: vsort, T: mt.Elem()}}
+}
+
+// unionProps: a precondition labelled with properties of its own is an obligation of those properties as
+// well, wherever the call (or go statement) stands.
+func unionProps(a, b []string) []string {
+	if len(b) == 0 {
+		return a
+	}
+	out := append([]string(nil), a...)
+	for _, p := range b {
+		if !hasProp(out, p) {
+			out = append(out, p)
+		}
+	}
+	return out
 }
